@@ -15,8 +15,11 @@ For each class and each generated value v:
 Bound: per class N values (quick 32, thorough 300; a Choice gets at least one
 value per alternative, a Sequence with k optionals gets all 2**k presence
 masks when 2**k <= N, else none / all / random), list lengths 0..3, nesting
-depth up to 4, atomic values from boundary pools.  Plus the Annex F worked
-examples of ASHRAE 135 (F.1.x / F.3.x / F.4.x) typed in as exact octets.
+depth up to 4, atomic values from boundary pools.  Plus twelve exact-octet
+vectors in the style of the standard's Annex F worked examples (F.1.x / F.3.x /
+F.4.x): the sandbox has no copy of the standard, so they were written down from
+memory and each re-derived by hand from the clause 20 encoding rules -- they
+are concrete test vectors, not authoritative copies of the published octets.
 
 A failure is named <kind>-<Class> and reported once per class and kind.  When
 a value of a container class fails, the smallest nested value showing the same
@@ -272,7 +275,7 @@ def _check_class(args):
     return res
 
 
-# -- Annex F worked examples (ASHRAE 135, Annex F; octets typed from the standard)
+# -- worked examples in the style of ASHRAE 135 Annex F (from memory, re-derived by hand from clause 20; no copy of the standard in the sandbox)
 
 def _annex_f():
     """(name, class, octets hex, expected {attribute path: value})"""
@@ -398,7 +401,7 @@ def run(tier, seed):
             "%d registered service entries (27 confirmed, 12 complex ack, 11 unconfirmed, 8 error) and %d "
             "constructed types of basetypes/apdu; %d values per class (all alternatives of a Choice, all "
             "presence masks of <= log2(N) optionals, else none/all/random), list lengths 0..%d, nesting <= %d, "
-            "boundary atomic values; plus Annex F worked examples as exact octets; random.Random(seed=%r)"
+            "boundary atomic values; plus 12 exact-octet vectors in the style of Annex F (hand-derived, no copy of the standard available); random.Random(seed=%r)"
             % (sum(1 for j in jobs if j[0] != 'constructed'), sum(1 for j in jobs if j[0] == 'constructed'),
                n, MAX_LEN, MAX_DEPTH, seed))
     return {
